@@ -343,6 +343,11 @@ def run_check(prop, tier, seed):
         cov["nonconforming_steps"] = nonconf
         cov["samples"] = props.samples(traces, nontrivial) + extra.get("samples", [])
         cov["extra"] = {k: v for k, v in extra.items() if k not in ("violations", "samples")}
+        if extra.get("ledger_inductive_invariant"):
+            # the two Apalache obligations of the ledger's inductive invariant (about the design, see DESIGN 10.5)
+            cov["obligations"] = len(extra["ledger_inductive_invariant"])
+            cov["discharged"] = sum(1 for o in extra["ledger_inductive_invariant"] if o["outcome"] == "NoError")
+            cov["checker_cmd"] = "apalache-mc check --cinit=ConstInit --next=LNext --inv=IndInv (--init=LInit --length=0 | --init=IndInit --length=1) Ledger.tla"
         cov["known_findings_seen"] = sorted(set(known_hits))
         ev["coverage"] = cov
         ev["assumptions"] = props.ASSUMPTIONS
